@@ -25,8 +25,9 @@ structure OS where
   -- ghost history of the current submission
   posted : List Res := []
   processed : List Res := []
-  /-- results handed to the caller from the current submission -/
-  delivered : List Res := []
+  /-- result values handed to the caller from the current submission (errors as
+  negative values) -/
+  delivered : List Int := []
   -- ghost history of the whole life
   submits : Nat := 0
   cancels : Nat := 0
@@ -70,10 +71,6 @@ def step (s : OS) : Ev → OS
   | .poll w room =>
     let (o', out, effs) := s.op.poll w room
     let sub := effs.contains .submit
-    let gotRes : Option Res := match out with
-      | .readyOk r => some r
-      | .readyErr e => some ⟨-e, 0⟩
-      | _ => none
     { s with
       op := o'
       inflight := s.inflight || sub
@@ -81,7 +78,8 @@ def step (s : OS) : Ev → OS
       processed := if sub then [] else s.processed
       delivered := if sub then [] else
         (match out with
-         | .readyOk r => s.delivered ++ [r]
+         | .readyOk r => s.delivered ++ [r.res]
+         | .readyErr e => s.delivered ++ [-e]
          | _ => s.delivered)
       submits := s.submits + (if sub then 1 else 0)
       yielded := s.yielded ++ [out]
